@@ -335,6 +335,10 @@ func (p Prop[C]) count() int {
 	n := p.Quick
 	if Tier() == "thorough" {
 		n = p.Thorough
+		// per-property depth factor from prop.json ("thorough_scale"), set by the driver
+		if f, err := strconv.ParseFloat(os.Getenv("VERIF_THOROUGH_SCALE"), 64); err == nil && f > 0 {
+			n = int(float64(n) * f)
+		}
 	}
 	if s := os.Getenv("VERIF_SCALE"); s != "" {
 		if f, err := strconv.ParseFloat(s, 64); err == nil && f > 0 {
